@@ -57,6 +57,10 @@ var baselineFuncs = func() map[string]bool {
 	return m
 }()
 
+// inlineSeq numbers expansions across all rounds of one run (labels and temporaries must stay unique when a later round
+// expands inside the output of an earlier one).
+var inlineSeq int
+
 type inliner struct {
 	fset    *token.FileSet
 	pkgs    []*packages.Package
@@ -69,13 +73,39 @@ type inliner struct {
 	inlinedObj map[*types.Func]int
 	skipped map[string]string
 	changed map[string]*ast.File // filename -> rewritten file
+	// function literals bound once to a local by an earlier expansion (`fn := (func(T))(func(t T) {...})`): calls of
+	// the local are expanded too, so that a helper taking a callback is as transparent as one that does not
+	litVars map[*types.Var]*litVar
+	// calls of helpers that were duplicated into a caller by copying a body that still contained them
+	extraUses map[*types.Func]int
+}
+
+type litVar struct {
+	lit      *ast.FuncLit
+	p        *packages.Package
+	assign   *ast.AssignStmt
+	idx      int
+	uses     int // identifiers referring to the variable
+	expanded int // call sites expanded
+	blanks   []*ast.AssignStmt // `_ = fn` statements
+}
+
+// calleeShape is what expand needs to know about the function being inlined: a declared helper or a bound literal.
+type calleeShape struct {
+	name string
+	fn   *types.Func // nil for a literal
+	lv   *litVar
+	typ  *ast.FuncType
+	body *ast.BlockStmt
+	recv *ast.FieldList
+	sig  *types.Signature
 }
 
 // flattenHelpers returns an overlay (filename -> new content) for the loaded
 // module packages, or nil when there is nothing to inline.
 func flattenHelpers(pkgs []*packages.Package) (map[string][]byte, []string) {
 	in := &inliner{pkgs: pkgs, decls: map[*types.Func]*ast.FuncDecl{}, declPkg: map[*types.Func]*packages.Package{}, declFil: map[*types.Func]*ast.File{},
-		helpers: map[*types.Func]bool{}, inlined: map[string]int{}, inlinedObj: map[*types.Func]int{}, skipped: map[string]string{}, changed: map[string]*ast.File{}}
+		helpers: map[*types.Func]bool{}, inlined: map[string]int{}, inlinedObj: map[*types.Func]int{}, skipped: map[string]string{}, changed: map[string]*ast.File{}, litVars: map[*types.Var]*litVar{}, extraUses: map[*types.Func]int{}}
 	if len(pkgs) == 0 {
 		return nil, nil
 	}
@@ -110,7 +140,8 @@ func flattenHelpers(pkgs []*packages.Package) (map[string][]byte, []string) {
 		}
 		in.helpers[obj] = true
 	}
-	if len(in.helpers) == 0 {
+	in.collectLitVars()
+	if len(in.helpers) == 0 && len(in.litVars) == 0 {
 		var notes []string
 		for n, w := range in.skipped {
 			notes = append(notes, fmt.Sprintf("new function %s not inlined: %s", n, w))
@@ -126,6 +157,7 @@ func flattenHelpers(pkgs []*packages.Package) (map[string][]byte, []string) {
 			in.rewriteFile(p, f)
 		}
 	}
+	in.dropBoundLiterals()
 	// a helper all of whose uses were inlined is dropped from the analysed program (it would otherwise still
 	// show up in whole-module inventories as a dead copy of the code it was extracted from)
 	uses := map[*types.Func]int{}
@@ -137,7 +169,7 @@ func flattenHelpers(pkgs []*packages.Package) (map[string][]byte, []string) {
 		}
 	}
 	for fn := range in.helpers {
-		if in.inlinedObj[fn] > 0 && in.inlinedObj[fn] == uses[fn] {
+		if in.inlinedObj[fn] > 0 && in.inlinedObj[fn] == uses[fn] && in.extraUses[fn] == 0 {
 			f := in.declFil[fn]
 			for i, d := range f.Decls {
 				if d == ast.Decl(in.decls[fn]) {
@@ -238,6 +270,199 @@ func (in *inliner) calleeOf(p *packages.Package, call *ast.CallExpr) *types.Func
 	}
 	fn, _ := p.TypesInfo.Uses[id].(*types.Func)
 	return fn
+}
+
+// shapeOf: the inlinable callee of a call, if any.
+func (in *inliner) shapeOf(p *packages.Package, call *ast.CallExpr) *calleeShape {
+	if fn := in.calleeOf(p, call); fn != nil {
+		if !in.helpers[fn] {
+			return nil
+		}
+		fd := in.decls[fn]
+		return &calleeShape{name: fn.FullName(), fn: fn, typ: fd.Type, body: fd.Body, recv: fd.Recv, sig: fn.Type().(*types.Signature)}
+	}
+	id, ok := ast.Unparen(call.Fun).(*ast.Ident)
+	if !ok {
+		return nil
+	}
+	v, _ := p.TypesInfo.Uses[id].(*types.Var)
+	lv := in.litVars[v]
+	if lv == nil || lv.p != p {
+		return nil
+	}
+	// the literal must not be expanded inside itself, and what it refers to must mean the same at the call site
+	if call.Pos() >= lv.lit.Pos() && call.End() <= lv.lit.End() {
+		return nil
+	}
+	scope := p.Types.Scope().Innermost(call.Pos())
+	okScope := scope != nil
+	ast.Inspect(lv.lit.Body, func(n ast.Node) bool {
+		x, isId := n.(*ast.Ident)
+		if !isId || !okScope {
+			return okScope
+		}
+		obj := p.TypesInfo.Uses[x]
+		if obj == nil {
+			return true
+		}
+		// fields and methods are not looked up by scope
+		if v, isVar := obj.(*types.Var); isVar && v.IsField() {
+			return true
+		}
+		if fo, isFn := obj.(*types.Func); isFn && fo.Type().(*types.Signature).Recv() != nil {
+			return true
+		}
+		if obj.Pkg() != nil && obj.Pkg() != p.Types {
+			return true // a qualified identifier's selector
+		}
+		if _, isPkg := obj.(*types.PkgName); isPkg || obj.Parent() == p.Types.Scope() || obj.Parent() == types.Universe || obj.Parent() == nil {
+			if _, found := scope.LookupParent(x.Name, call.Pos()); found != nil && found != obj {
+				okScope = false
+			}
+			return true
+		}
+		if obj.Pos() >= lv.lit.Pos() && obj.Pos() <= lv.lit.End() {
+			return true // the literal's own parameter or local
+		}
+		if _, found := scope.LookupParent(x.Name, call.Pos()); found != obj {
+			okScope = false
+		}
+		return true
+	})
+	if !okScope {
+		return nil
+	}
+	sig, _ := v.Type().Underlying().(*types.Signature)
+	if sig == nil {
+		return nil
+	}
+	return &calleeShape{name: "func literal bound to " + v.Name(), lv: lv, typ: lv.lit.Type, body: lv.lit.Body, sig: sig}
+}
+
+// collectLitVars finds `v := (func(...)...)(func(...) {...})` bindings (the form expand produces for a parameter whose
+// argument is a function literal) whose variable is never reassigned or address-taken.
+func (in *inliner) collectLitVars() {
+	for _, p := range in.pkgs {
+		if !strings.HasPrefix(p.PkgPath, modulePath) {
+			continue
+		}
+		for _, f := range p.Syntax {
+			ast.Inspect(f, func(n ast.Node) bool {
+				as, ok := n.(*ast.AssignStmt)
+				if !ok || as.Tok != token.DEFINE || len(as.Lhs) != len(as.Rhs) {
+					return true
+				}
+				for i, r := range as.Rhs {
+					conv, ok := r.(*ast.CallExpr)
+					if !ok || len(conv.Args) != 1 {
+						continue
+					}
+					par, ok := conv.Fun.(*ast.ParenExpr)
+					if !ok {
+						continue
+					}
+					if _, isFT := par.X.(*ast.FuncType); !isFT {
+						continue
+					}
+					lit, ok := conv.Args[0].(*ast.FuncLit)
+					if !ok {
+						continue
+					}
+					id, ok := as.Lhs[i].(*ast.Ident)
+					if !ok {
+						continue
+					}
+					v, _ := p.TypesInfo.Defs[id].(*types.Var)
+					if v == nil {
+						continue
+					}
+					// the literal itself must be safe to splice in
+					bad := false
+					ast.Inspect(lit.Body, func(m ast.Node) bool {
+						switch y := m.(type) {
+						case *ast.FuncLit:
+							return false
+						case *ast.DeferStmt, *ast.LabeledStmt:
+							bad = true
+						case *ast.BranchStmt:
+							if y.Tok == token.GOTO {
+								bad = true
+							}
+						case *ast.CallExpr:
+							if cid, ok := y.Fun.(*ast.Ident); ok && cid.Name == "recover" {
+								bad = true
+							}
+						}
+						return !bad
+					})
+					if !bad {
+						in.litVars[v] = &litVar{lit: lit, p: p, assign: as, idx: i}
+					}
+				}
+				return true
+			})
+			// uses; reassignment or & disqualifies
+			ast.Inspect(f, func(n ast.Node) bool {
+				switch x := n.(type) {
+				case *ast.Ident:
+					if v, ok := p.TypesInfo.Uses[x].(*types.Var); ok && in.litVars[v] != nil {
+						in.litVars[v].uses++
+					}
+				case *ast.AssignStmt:
+					for i, l := range x.Lhs {
+						if id, ok := l.(*ast.Ident); ok && x.Tok == token.ASSIGN {
+							if v, ok := p.TypesInfo.Uses[id].(*types.Var); ok && in.litVars[v] != nil {
+								delete(in.litVars, v)
+							}
+							if id.Name == "_" && len(x.Lhs) == 1 && i == 0 {
+								if rid, ok := x.Rhs[0].(*ast.Ident); ok {
+									if v, ok := p.TypesInfo.Uses[rid].(*types.Var); ok && in.litVars[v] != nil {
+										in.litVars[v].blanks = append(in.litVars[v].blanks, x)
+									}
+								}
+							}
+						}
+					}
+				case *ast.UnaryExpr:
+					if id, ok := x.X.(*ast.Ident); ok && x.Op == token.AND {
+						if v, ok := p.TypesInfo.Uses[id].(*types.Var); ok {
+							delete(in.litVars, v)
+						}
+					}
+				case *ast.IncDecStmt:
+				}
+				return true
+			})
+		}
+	}
+}
+
+// dropBoundLiterals: a binding all of whose uses were expanded is neutralised (`_ = 0`), so that the literal does not
+// survive as a dead closure duplicating the code that now stands at its call sites.
+func (in *inliner) dropBoundLiterals() {
+	for _, lv := range in.litVars {
+		if lv.expanded == 0 || lv.expanded+len(lv.blanks) != lv.uses {
+			continue
+		}
+		zero := func() ast.Expr { return &ast.BasicLit{Kind: token.INT, Value: "0"} }
+		if len(lv.assign.Lhs) == 1 {
+			lv.assign.Lhs = []ast.Expr{ast.NewIdent("_")}
+			lv.assign.Rhs = []ast.Expr{zero()}
+			lv.assign.Tok = token.ASSIGN
+		} else {
+			lv.assign.Lhs = append(lv.assign.Lhs[:lv.idx:lv.idx], lv.assign.Lhs[lv.idx+1:]...)
+			lv.assign.Rhs = append(lv.assign.Rhs[:lv.idx:lv.idx], lv.assign.Rhs[lv.idx+1:]...)
+			// indexes of other literals bound by the same statement shift
+			for _, o := range in.litVars {
+				if o != lv && o.assign == lv.assign && o.idx > lv.idx {
+					o.idx--
+				}
+			}
+		}
+		for _, b := range lv.blanks {
+			b.Rhs = []ast.Expr{zero()}
+		}
+	}
 }
 
 // ---- file rewriting ----
@@ -458,6 +683,11 @@ func (in *inliner) firstCall(p *packages.Package, e *ast.Expr) (slot *ast.Expr, 
 		case *ast.KeyValueExpr:
 			return walk(&x.Value, underCond)
 		case *ast.CallExpr:
+			// a helper call is expanded as a whole: its receiver and arguments are bound, in order, before its body
+			if in.shapeOf(p, x) != nil {
+				found, cond = pe, underCond
+				return true
+			}
 			// operands first
 			if sel, ok := ast.Unparen(x.Fun).(*ast.SelectorExpr); ok {
 				if walk(&sel.X, underCond) {
@@ -496,7 +726,7 @@ func (in *inliner) firstHelperCall(p *packages.Package, s ast.Stmt) *ast.CallExp
 		if cond {
 			return nil
 		}
-		if fn := in.calleeOf(p, call); fn != nil && in.helpers[fn] {
+		if in.shapeOf(p, call) != nil {
 			return call
 		}
 		return nil // some other call comes first: do not reorder
@@ -513,15 +743,14 @@ func (in *inliner) inlineInStmt(p *packages.Package, f *ast.File, s ast.Stmt) ([
 			continue
 		}
 		call := (*slot).(*ast.CallExpr)
-		fn := in.calleeOf(p, call)
-		if cond || fn == nil || !in.helpers[fn] {
+		sh := in.shapeOf(p, call)
+		if cond || sh == nil {
 			return nil, nil, false
 		}
-		sig := fn.Type().(*types.Signature)
-		nres := sig.Results().Len()
+		nres := sh.sig.Results().Len()
 		// multi-value results are only usable when the call is the sole RHS / result
 		if nres > 1 && !(len(exprs) == 1 && slot == pe) {
-			in.skipped[fn.FullName()] = "multi-value call in an unsupported position"
+			in.skipped[sh.name] = "multi-value call in an unsupported position"
 			return nil, nil, false
 		}
 		if nres == 0 {
@@ -529,12 +758,39 @@ func (in *inliner) inlineInStmt(p *packages.Package, f *ast.File, s ast.Stmt) ([
 				return nil, nil, false
 			}
 		}
-		pre, outs, ok := in.expand(p, f, call, fn)
+		tail := false
+		if rs, isRet := s.(*ast.ReturnStmt); isRet && len(rs.Results) == 1 && slot == &rs.Results[0] && nres >= 1 {
+			tail = true
+			// named results with a blank name cannot be returned explicitly
+			if sh.typ.Results != nil {
+				for _, fld := range sh.typ.Results.List {
+					for _, nm := range fld.Names {
+						if nm.Name == "_" {
+							tail = false
+						}
+					}
+				}
+			}
+		}
+		pre, outs, ok := in.expand(p, f, call, sh, tail)
 		if !ok {
 			return nil, nil, false
 		}
-		in.inlined[fn.FullName()]++
-		in.inlinedObj[fn]++
+		if tail {
+			in.inlined[sh.name]++
+			if sh.fn != nil {
+				in.inlinedObj[sh.fn]++
+			} else {
+				sh.lv.expanded++
+			}
+			return pre, nil, true
+		}
+		in.inlined[sh.name]++
+		if sh.fn != nil {
+			in.inlinedObj[sh.fn]++
+		} else {
+			sh.lv.expanded++
+		}
 		switch {
 		case nres == 0:
 			return pre, nil, true
@@ -561,11 +817,15 @@ func (in *inliner) inlineInStmt(p *packages.Package, f *ast.File, s ast.Stmt) ([
 }
 
 // expand builds the statements that replace the call.
-func (in *inliner) expand(p *packages.Package, f *ast.File, call *ast.CallExpr, fn *types.Func) ([]ast.Stmt, []ast.Expr, bool) {
-	fd := in.decls[fn]
-	cp := in.declPkg[fn]
+func (in *inliner) expand(p *packages.Package, f *ast.File, call *ast.CallExpr, sh *calleeShape, tail bool) ([]ast.Stmt, []ast.Expr, bool) {
+	fd := &ast.FuncDecl{Type: sh.typ, Body: sh.body, Recv: sh.recv}
+	cp := p
+	if sh.fn != nil {
+		cp = in.declPkg[sh.fn]
+	}
+	fname := sh.name
 	if cp != p {
-		in.skipped[fn.FullName()] = "called from another package"
+		in.skipped[fname] = "called from another package"
 		return nil, nil, false
 	}
 	// identifiers of the callee that denote package-level objects or imports must mean the same at the call site
@@ -574,8 +834,8 @@ func (in *inliner) expand(p *packages.Package, f *ast.File, call *ast.CallExpr, 
 	needImports := map[string]string{} // name -> path
 	ast.Inspect(fd, func(n ast.Node) bool {
 		id, ok := n.(*ast.Ident)
-		if !ok {
-			return true
+		if !ok || sh.fn == nil {
+			return sh.fn != nil
 		}
 		obj := cp.TypesInfo.Uses[id]
 		if obj == nil {
@@ -605,18 +865,28 @@ func (in *inliner) expand(p *packages.Package, f *ast.File, call *ast.CallExpr, 
 		return true
 	})
 	if conflict != "" {
-		in.skipped[fn.FullName()] = conflict
+		in.skipped[fname] = conflict
 		return nil, nil, false
 	}
 	for name, path := range needImports {
 		if !ensureImport(f, name, path) {
-			in.skipped[fn.FullName()] = "import name " + name + " clashes in the caller's file"
+			in.skipped[fname] = "import name " + name + " clashes in the caller's file"
 			return nil, nil, false
 		}
 	}
-	in.n++
+	// helper calls still present in the body about to be copied get a second life in the caller
+	ast.Inspect(sh.body, func(n ast.Node) bool {
+		if ce, ok := n.(*ast.CallExpr); ok {
+			if callee := in.calleeOf(cp, ce); callee != nil && in.helpers[callee] {
+				in.extraUses[callee]++
+			}
+		}
+		return true
+	})
+	inlineSeq++
+	in.n = inlineSeq
 	label := fmt.Sprintf("_inl%d", in.n)
-	sig := fn.Type().(*types.Signature)
+	sig := sh.sig
 
 	var pre []ast.Stmt
 	var outs []ast.Expr
@@ -631,8 +901,10 @@ func (in *inliner) expand(p *packages.Package, f *ast.File, call *ast.CallExpr, 
 			}
 			for j := 0; j < n; j++ {
 				name := fmt.Sprintf("%s_r%d", label, ri)
-				pre = append(pre, &ast.DeclStmt{Decl: &ast.GenDecl{Tok: token.VAR, Specs: []ast.Spec{&ast.ValueSpec{Names: []*ast.Ident{ast.NewIdent(name)}, Type: copyExpr(fld.Type)}}}})
-				outs = append(outs, ast.NewIdent(name))
+				if !tail {
+					pre = append(pre, &ast.DeclStmt{Decl: &ast.GenDecl{Tok: token.VAR, Specs: []ast.Spec{&ast.ValueSpec{Names: []*ast.Ident{ast.NewIdent(name)}, Type: copyExpr(fld.Type)}}}})
+					outs = append(outs, ast.NewIdent(name))
+				}
 				if len(fld.Names) > 0 {
 					resultNames = append(resultNames, fld.Names[j].Name)
 				} else {
@@ -649,7 +921,8 @@ func (in *inliner) expand(p *packages.Package, f *ast.File, call *ast.CallExpr, 
 	var used []ast.Stmt
 	bind := func(name string, typ ast.Expr, val ast.Expr) {
 		if name == "" || name == "_" {
-			in.n++
+			inlineSeq++
+			in.n = inlineSeq
 			name = fmt.Sprintf("%s_u%d", label, in.n)
 		}
 		lhs = append(lhs, ast.NewIdent(name))
@@ -659,7 +932,7 @@ func (in *inliner) expand(p *packages.Package, f *ast.File, call *ast.CallExpr, 
 	if fd.Recv != nil && len(fd.Recv.List) == 1 {
 		sel, ok := ast.Unparen(call.Fun).(*ast.SelectorExpr)
 		if !ok {
-			in.skipped[fn.FullName()] = "method called through an unsupported expression"
+			in.skipped[fname] = "method called through an unsupported expression"
 			return nil, nil, false
 		}
 		recvExpr := copyExpr(sel.X)
@@ -668,7 +941,7 @@ func (in *inliner) expand(p *packages.Package, f *ast.File, call *ast.CallExpr, 
 		_, wantPtr := recvT.(*types.Pointer)
 		_, havePtr := argT.Underlying().(*types.Pointer)
 		if s, ok := p.TypesInfo.Selections[sel]; ok && len(s.Index()) > 1 {
-			in.skipped[fn.FullName()] = "promoted method"
+			in.skipped[fname] = "promoted method"
 			return nil, nil, false
 		}
 		switch {
@@ -705,7 +978,7 @@ func (in *inliner) expand(p *packages.Package, f *ast.File, call *ast.CallExpr, 
 				continue
 			}
 			if ai >= len(call.Args) {
-				in.skipped[fn.FullName()] = "argument count mismatch (call of a multi-value expression)"
+				in.skipped[fname] = "argument count mismatch (call of a multi-value expression)"
 				return nil, nil, false
 			}
 			bind(nm.Name, copyExpr(fld.Type), copyExpr(call.Args[ai]))
@@ -736,12 +1009,40 @@ func (in *inliner) expand(p *packages.Package, f *ast.File, call *ast.CallExpr, 
 		}
 		return true
 	})
+	if tail {
+		// `return h(...)`: the helper's returns ARE the caller's returns (no merge of the result values is created)
+		explicitReturns(cb, resultNames)
+		body = append(body, cb.List...)
+		return []ast.Stmt{&ast.BlockStmt{List: body}}, nil, true
+	}
 	rewriteReturns(cb, label, outs, resultNames)
 	body = append(body, cb.List...)
 	body = append(body, &ast.BranchStmt{Tok: token.BREAK, Label: ast.NewIdent(label)})
 	loop := &ast.LabeledStmt{Label: ast.NewIdent(label), Stmt: &ast.ForStmt{Body: &ast.BlockStmt{List: body}}}
 	pre = append(pre, loop)
 	return pre, outs, true
+}
+
+// explicitReturns turns naked returns of a body with named results into explicit ones (not inside function literals).
+func explicitReturns(b *ast.BlockStmt, resultNames []string) {
+	ast.Inspect(b, func(n ast.Node) bool {
+		switch x := n.(type) {
+		case *ast.FuncLit:
+			return false
+		case *ast.ReturnStmt:
+			if len(x.Results) == 0 {
+				for _, nm := range resultNames {
+					if nm == "" || nm == "_" {
+						return true
+					}
+				}
+				for _, nm := range resultNames {
+					x.Results = append(x.Results, ast.NewIdent(nm))
+				}
+			}
+		}
+		return true
+	})
 }
 
 // rewriteReturns replaces return statements of the inlined body (not those of nested function literals).
